@@ -65,3 +65,24 @@ func verifLemmaRevCompMirrors(m *Multi) (s, e int) {
 func verifLemmaSpanDeterministic(m *Multi) (a, b, c, d int) {
 	return m.Start(), m.Start(), m.End(), m.End()
 }
+
+// Delete removes exactly row i; the other rows keep their order (C07).
+//@ func (*Multi).Delete
+//@   property C07
+//@   requires m != nil && 0 <= i && i < len(m.Seq)
+//@   ensures [count]  len(m.Seq) == old(len(m.Seq)) - 1
+//@   ensures [before] forall k int :: 0 <= k && k < i ==> m.Seq[k] == old(m.Seq[k])
+//@   ensures [after]  forall k int :: i <= k && k < len(m.Seq) ==> m.Seq[k] == old(m.Seq[k+1])
+//@   assigns m.Seq, m.Seq[*]
+
+// Rows / Row: the row view is the stored row.
+//@ func (*Multi).Rows
+//@   property C07
+//@   requires m != nil
+//@   ensures result == len(m.Seq)
+//@   assigns nothing
+//@ func (*Multi).Row
+//@   property C07
+//@   requires m != nil && 0 <= i && i < len(m.Seq)
+//@   ensures result == m.Seq[i]
+//@   assigns nothing
